@@ -75,7 +75,7 @@ ShowStep(r0, s) ==
       emit(rr, chunk) == [rr EXCEPT !.out = @ \o chunk, !.chunks = Append(@, [v |-> s, chunk |-> chunk, refq |-> r0.refq])] IN
   IF r.query THEN
        IF r.removeQM THEN
-            IF s = <<>> THEN [r EXCEPT !.fault = "showInURL: s[len(s)-1] with empty s (query && removeQuestionMark)"]
+            IF s = <<>> THEN emit(r, <<>>)                                     \* if s == "" { return nil }  (guards s[len(s)-1])
             ELSE emit([r EXCEPT !.addAmp = (LastByte(s) # AMP)], PathEsc(s))
        ELSE emit(r, QueryEsc(s))
   ELSE IF HasByte(s, QM) THEN
